@@ -1334,6 +1334,52 @@ struct Engine
             report("VAL", "values", "begin==end", "begin()==end() is %d with model size %zu", cv.begin() == cv.end(), n);
         if (static_cast<std::size_t>(cv.end() - cv.begin()) != n)
             report("VAL", "values", "end-begin", "end()-begin() == %ld, model %zu", static_cast<long>(cv.end() - cv.begin()), n);
+        // ---- iterator algebra (C11): every pair of positions in [0, size], mutable and const iterators
+        {
+            const auto ni = static_cast<std::ptrdiff_t>(std::min(n, cv.size()));
+            auto fail = [&](const char* what) { report("C11", "iterator", what, "iterator algebra: %s is wrong", what); };
+            for (std::ptrdiff_t i = 0; i <= ni; ++i)
+            {
+                auto it = vv.begin() + i;
+                typename Vec::const_iterator cit = it;  // conversion keeps the position
+                if (it.index() != static_cast<std::size_t>(i)) fail("begin()+i");
+                if (!(cit == cv.begin() + i) || cit != cv.begin() + i) fail("iterator -> const_iterator conversion");
+                if (it - vv.begin() != i || cv.end() - cit != ni - i) fail("difference");
+                if (!(vv.end() - (ni - i) == it)) fail("end()-k");
+                {
+                    auto a = it;
+                    if (i < ni && !(++a == vv.begin() + (i + 1))) fail("pre-increment");
+                    a = it;
+                    if (i < ni && (!(a++ == it) || !(a == vv.begin() + (i + 1)))) fail("post-increment");
+                    a = it;
+                    if (i > 0 && !(--a == vv.begin() + (i - 1))) fail("pre-decrement");
+                    a = it;
+                    if (i > 0 && (!(a-- == it) || !(a == vv.begin() + (i - 1)))) fail("post-decrement");
+                }
+                for (std::ptrdiff_t j = 0; j <= ni; ++j)
+                {
+                    auto jt = vv.begin() + j;
+                    if ((it == jt) != (i == j) || (it != jt) != (i != j)) fail("==/!=");
+                    if ((it < jt) != (i < j)) fail("<");
+                    if ((it <= jt) != (i <= j)) fail("<=");
+                    if ((it > jt) != (i > j)) fail(">");
+                    if ((it >= jt) != (i >= j)) fail(">=");
+                    if (jt - it != j - i) fail("it - it");
+                    if (!(it + (j - i) == jt) || !(jt - (j - i) == it)) fail("it +/- n");
+                    auto a = it;
+                    a += (j - i);
+                    if (!(a == jt)) fail("+=");
+                    a -= (j - i);
+                    if (!(a == it)) fail("-=");
+                    if (j < ni && i <= j)
+                    {
+                        if (reinterpret_cast<uintptr_t>(it[j - i].data_begin()) != reinterpret_cast<uintptr_t>(vv[static_cast<std::size_t>(j)].data_begin()))
+                            fail("it[n]");
+                        if (reinterpret_cast<uintptr_t>((*jt).data_begin()) != reinterpret_cast<uintptr_t>(jt->data_begin())) fail("operator->");
+                    }
+                }
+            }
+        }
         // ---- block
         const auto db = reinterpret_cast<uintptr_t>(cv.data_begin());
         const auto de = reinterpret_cast<uintptr_t>(cv.data_end());
